@@ -111,7 +111,8 @@ class Env:
         if k == "bool":
             return o[1]
         if k == "np":
-            return np.dtype(self.dtypes[o[1]]).type(3 if o[1] != 11 else True)
+            v = o[2] if len(o) > 2 else 3
+            return np.dtype(self.dtypes[o[1]]).type(v if o[1] != 11 else bool(v))
         return {"none": None, "str": "abc", "ellipsis": ...}[o[1] if len(o) > 1 else "none"]
 
     def err_name(self, e):
@@ -259,6 +260,13 @@ def grid(np, dtname, divisor=False, no_min=False):
     else:
         info = np.finfo(dt)
         vals = [-7, -2, -1, 0, 1, 2, 7, float(info.min), float(info.max), 0.5, -2.5]
+        if divisor:
+            vals = [v for v in vals if v != 0]
+        # signed zeros, infinities, nan, subnormals: kept apart from `set` (0.0 == -0.0)
+        special = [float("inf"), float("-inf"), float("nan"), float(info.smallest_subnormal), -float(info.smallest_subnormal)]
+        if not divisor:
+            special += [-0.0]
+        return np.array(sorted(set(vals)) + special, dtype=dt)
     if divisor:
         vals = [v for v in vals if v != 0]
     return np.array(sorted(set(vals)), dtype=dt)
@@ -269,7 +277,11 @@ def agree(np, got, want):
     if want.dtype.kind == "f":
         rtol = {2: 2e-3, 4: 2e-6, 8: 1e-12}[want.dtype.itemsize]
         with np.errstate(all="ignore"):
-            return np.isclose(got, want, rtol=rtol, atol=0, equal_nan=True) | (got == want)
+            close = np.isclose(got, want, rtol=rtol, atol=0, equal_nan=True) | (got == want)
+            # where numpy's result is +-0.0, +-inf or nan the comparison is exact, sign included
+            special = (want == 0) | ~np.isfinite(want)
+            exact = (np.isnan(want) & np.isnan(got)) | ((got == want) & (np.signbit(got) == np.signbit(want)))
+            return np.where(special, exact, close)
     return got == want
 
 
@@ -288,6 +300,19 @@ def classify_floordiv_float(np, x, y, got, want, dt):
     except Exception:  # noqa: BLE001
         pass
     return False
+
+
+def classify_floordiv_nonfinite(np, x, y, dt):
+    """The other listed face of Floor(Div) vs numpy's fmod-based floor_divide: an operand is not finite, or
+    the IEEE quotient x/y has lost the information (underflow to +-0 of a non-zero dividend, overflow)."""
+    try:
+        t = np.dtype(dt).type
+        with np.errstate(all="ignore"):
+            fx, fy = t(x), t(y)
+            q = fx / fy
+        return bool(not np.isfinite(fx) or not np.isfinite(fy) or not np.isfinite(q) or (q == 0 and fx != 0))
+    except Exception:  # noqa: BLE001
+        return False
 
 
 def numpy_expect(np, opname, a, b):
@@ -381,6 +406,11 @@ def value_case(env: Env, opname, oa, ob, settings=(True, True), const_path=False
                                             np.broadcast_to(xb, got.shape)[tuple(i)], got[tuple(i)], want[tuple(i)], want.dtype)
                     for i in np.argwhere(~ok)):
                 key = "floordiv:float:rounded-quotient"
+            elif opname == "floordiv" and tkind == "float" and all(
+                    classify_floordiv_nonfinite(np, np.broadcast_to(xa, got.shape)[tuple(i)],
+                                                np.broadcast_to(xb, got.shape)[tuple(i)], want.dtype)
+                    for i in np.argwhere(~ok)):
+                key = "floordiv:float:non-finite-or-underflow"
             elif opname == "floordiv" and tkind == "int" and (x < 0) != (y < 0) and got[idx] == want[idx] + 1:
                 key = "floordiv:int:opposite-signs-nonzero-remainder"
             out.append((key, f"{describe(env, opname, oa, ob)} at a={x!r}, b={y!r}: spox {got[idx]!r}, numpy {want[idx]!r} "
@@ -898,7 +928,7 @@ def describe(env, opname, oa, ob):
         if o[0] == "var":
             return f"Var[{env.dtypes[o[1]]}]"
         if o[0] == "np":
-            return f"np.{env.dtypes[o[1]]}(3)"
+            return f"np.{env.dtypes[o[1]]}({o[2] if len(o) > 2 else 3})"
         return repr(env.realise(o))
     return f"{SYM[opname]}{d(oa)}" if opname in UNARY else f"{d(oa)} {SYM[opname]} {d(ob)}"
 
@@ -983,6 +1013,9 @@ def run(ck: core.Check):
     # ------------------------------------------------------------------ correspondence: dispatch decisions
     scal = [["int", 3], ["int", -1], ["int", 1000], ["int", 2 ** 40], ["float"], ["bool", True],
             ["other", "none"], ["other", "str"], ["other", "ellipsis"]] + [["np", d] for d in range(ND)]
+    # constants equal to a neutral element of some operator (0, 1, -1, 0.0, 1.0, -0.0, False) and numpy scalars 0 / 1
+    scal += [["int", 0], ["int", 1], ["float", 0.0], ["float", 1.0], ["float", -0.0], ["float", -1.0], ["bool", False]]
+    scal += [["np", d, v] for d in (2, 3, 9, 10, 4) for v in (0, 1)]
     pairs = [(["var", a], ["var", b]) for a in range(ND) for b in range(ND)]
     for d in range(ND):
         for s in scal:
@@ -1006,6 +1039,10 @@ def run(ck: core.Check):
     reqs = []
     for st, opname, oa, ob in cases:
         def enc(o):
+            if o[0] == "float":
+                return ["float"]
+            if o[0] == "np":
+                return ["np", o[1]]
             return ["other"] if o[0] == "other" else o
         reqs.append({"settings": st, "op": opname, "a": enc(oa), "b": enc(ob)})
     model = None
@@ -1031,11 +1068,20 @@ def run(ck: core.Check):
             stats[res["err"]] = stats.get(res["err"], 0) + 1
         else:
             stats["trees"] += 1
-        if model is not None and model[i] != res:
+        mi = model[i] if model is not None else None
+        if mi is not None and "tree" in mi:
+            for k_, o_ in enumerate((oa, ob)):
+                if o_[0] in ("int", "float", "bool", "np") and o_[0] != "other":
+                    try:
+                        if env.realise(o_) == 0:
+                            mi = dict(mi, tree=mi["tree"].replace(":0]", f":#{k_}]"))
+                    except Exception:  # noqa: BLE001
+                        pass
+        if mi is not None and mi != res:
             mism += 1
             if mism <= 4:
                 ck.broken("correspondence", "C17 dispatcher model-vs-implementation",
-                          f"settings={st} {describe(env, opname, oa, ob if opname not in UNARY else None)}: model {model[i]} real {res}")
+                          f"settings={st} {describe(env, opname, oa, ob if opname not in UNARY else None)}: model {mi} real {res}")
         ck.sample({"settings": st, "expr": describe(env, opname, oa, ob if opname not in UNARY else None), "real": res}, 4)
     env.restore_dispatcher(saved)
     ck.cov["dispatch_cases"] = len(cases)
@@ -1063,9 +1109,12 @@ def run(ck: core.Check):
             for b in NUM:
                 value_cases.append((opname, ["var", a], ["var", b]))
         for d in NUM:
-            for s in [["int", 2], ["int", -7], ["int", -1], ["float", 0.5], ["float", -2.5], ["bool", True]]:
+            for s in [["int", 2], ["int", -7], ["int", -1], ["float", 0.5], ["float", -2.5], ["bool", True],
+                      ["int", 0], ["int", 1], ["float", 0.0], ["float", 1.0], ["float", -0.0], ["float", -1.0], ["bool", False]]:
                 value_cases.append((opname, ["var", d], s))
                 value_cases.append((opname, s, ["var", d]))
+            for s in [["np", 9, 0], ["np", 9, 1], ["np", 3, 0], ["np", 3, 1], ["np", 10, 1]]:
+                value_cases.append((opname, ["var", d], s))  # (a numpy scalar on the left goes through numpy first)
     for d in NUM:
         value_cases.append(("neg", ["var", d], None))
     for opname in LOGIC:
@@ -1275,7 +1324,7 @@ def run(ck: core.Check):
                 fail("strict", {"op": opname, "a": ["var", a], "b": ["var", b]},
                      safely(strictness_case, env, opname, ["var", a], ["var", b]))
                 n_strict += 1
-            for s in [["float", 1.5], ["int", 2]]:
+            for s in [["float", 1.5], ["int", 2], ["float", 0.0], ["float", 1.0], ["float", -0.0], ["int", 0], ["int", 1]]:
                 for oa, ob in ((["var", a], s), (s, ["var", a])):
                     fail("strict", {"op": opname, "a": oa, "b": ob}, safely(strictness_case, env, opname, oa, ob))
                     n_strict += 1
